@@ -56,7 +56,41 @@ func nestedValue(shape string, depth int, via string, bad bool) (any, error) {
 	return v, nil
 }
 
+// recursive schemas: Node{a int, l list[ref Node]} and Dir{m map[string, ref Dir]} (the shapes SchemaMC checks
+// at depth 2 and 4: a well-formed value is accepted); here the depth is scaled.
+func recSchema(shape string) schema.Type {
+	if shape == "rec_list" {
+		return schema.NewScopeSchema(schema.NewObjectSchema("Node", map[string]*schema.PropertySchema{
+			"a": schema.NewPropertySchema(schema.NewIntSchema(nil, nil, nil), nil, true, nil, nil, nil, nil, nil),
+			"l": schema.NewPropertySchema(schema.NewListSchema(schema.NewRefSchema("Node", nil), nil, nil), nil, false, nil, nil, nil, nil, nil),
+		}))
+	}
+	return schema.NewScopeSchema(schema.NewObjectSchema("Dir", map[string]*schema.PropertySchema{
+		"m": schema.NewPropertySchema(schema.NewMapSchema(schema.NewStringSchema(nil, nil, nil), schema.NewRefSchema("Dir", nil), nil, nil), nil, false, nil, nil, nil, nil, nil),
+	}))
+}
+
+func recValue(shape string, depth int) any {
+	var v any
+	if shape == "rec_list" {
+		v = map[string]any{"a": int64(1)}
+		for i := 0; i < depth; i++ {
+			v = map[string]any{"a": int64(1), "l": []any{v}}
+		}
+		return v
+	}
+	v = map[string]any{}
+	for i := 0; i < depth; i++ {
+		v = map[string]any{"m": map[any]any{"a": v}}
+	}
+	return v
+}
+
 func nestedSchema(shape string, depth int) schema.Type {
+	switch shape {
+	case "rec_list", "rec_map":
+		return recSchema(shape)
+	}
 	switch shape {
 	case "any_list", "any_map":
 		return schema.NewAnySchema()
@@ -82,7 +116,13 @@ func runDeep(raw json.RawMessage) any {
 		return map[string]any{"harness_error": "bad deep case: " + err.Error()}
 	}
 	r := &resT{Evals: 1}
-	v, err := nestedValue(c.Shape, c.Depth, c.Via, c.Bad)
+	var v any
+	var err error
+	if c.Shape == "rec_list" || c.Shape == "rec_map" {
+		v = recValue(c.Shape, c.Depth)
+	} else {
+		v, err = nestedValue(c.Shape, c.Depth, c.Via, c.Bad)
+	}
 	if err != nil {
 		// the decoder itself refuses this depth: nothing to hold against the SDK
 		r.Skipped++
@@ -122,6 +162,11 @@ func runDeep(raw json.RawMessage) any {
 		if op == "unser" {
 			accepted = rerr == nil
 			native = res
+			if !accepted && (c.Shape == "rec_list" || c.Shape == "rec_map") {
+				// the model accepts this well-formed value at every depth it checks: a rejection is exactness (C03)
+				r.miss(map[string]any{"op": op, "entry": "untyped", "kind_at_fault": "deep:" + c.Shape, "arg_class": "nesting", "divergence": "rejects"},
+					map[string]any{"error": rerr.Error(), "depth": c.Depth})
+			}
 		}
 	}
 	return r
